@@ -618,7 +618,15 @@ fn lex_source_into_buffer<'source: 'tokens, 'tokens: 'buffer, 'buffer>(
 								0
 							}
 						};
-						value += u128::from(digit);
+						value = match value.checked_add(u128::from(digit))
+						{
+							Some(value) => value,
+							None =>
+							{
+								has_overflowed = true;
+								0
+							}
+						};
 
 						iter.next();
 						location.end += 1;
